@@ -23,6 +23,11 @@ def goKeywords : List String :=
 def isIdentStart (c : Char) : Bool := c.isAlpha || c == '_' || c.toNat ≥ 128
 def isIdentChar (c : Char) : Bool := c.isAlphanum || c == '_' || c.toNat ≥ 128
 
+/-- the name an import spec binds in the file scope: its alias, else the last path segment
+    (a spec is `(alias or "-", path)` as dumped by `godump.rs`) -/
+def importBinding (spec : String × String) : String :=
+  if spec.1 != "-" then spec.1 else (spec.2.splitOn "/").getLast!
+
 def legalIdent (s : String) : Bool :=
   match s.toList with
   | [] => false
@@ -186,7 +191,7 @@ partial def tyOf (c : Ctx) (fn : String) (s : Scope) (e : GExpr) : Scope × Opti
           -- `extern "go"` items: typed from their declared goml signature only (the annotation)
           match pkgOf x with
           | some p =>
-            if c.file.items.any (fun | .imports specs => specs.any (fun sp => (sp.2.splitOn "/").getLast! == p) | _ => false)
+            if c.file.items.any (fun | .imports specs => specs.any (fun sp => importBinding sp == p) | _ => false)
             then ({ s with usedPkgs := p :: s.usedPkgs }, some ann)
             else (s.err "undeclared" fn x, none)
           | none => (s.err "undeclared" fn x, none)
@@ -506,9 +511,9 @@ def check (f : GFile) : List GoErr :=
     let s := if g.ret.isSome && !terminates g.body then s.err "missing-return" g.name else s
     (acc.1 ++ s.errs, acc.2 ++ s.usedPkgs)) (errs, [])
   let imports := f.items.flatMap fun
-    | .imports specs => specs.map (·.2)
+    | .imports specs => specs
     | _ => []
-  errs ++ (imports.filter (fun p => !used.contains ((p.splitOn "/").getLast!))).map fun p =>
-    { code := "unused-import", site := "imports", detail := p }
+  errs ++ (imports.filter (fun sp => !used.contains (importBinding sp))).map fun sp =>
+    { code := "unused-import", site := "imports", detail := sp.2 }
 
 end Goml.Go
